@@ -8,6 +8,7 @@ mod feed;
 mod gen;
 mod minimize;
 mod props;
+mod q;
 mod rng;
 mod runner;
 mod scenario;
